@@ -49,6 +49,20 @@ def correspond(ctx):
                 rp = C.write_replay("C10", "grpc-fault", {"property": "C10", "kind": "fault", "case": o, "observed": r, "expected": "err old"})
                 violations.append(Violation("c10-grpc-trace", "upload through the gRPC client with fault `%s`: writer got `%s`, the key then read `%s` (expected: an error and the old value)"
                                             % (o, r.split()[0], " ".join(r.split()[1:])), rp))
+    # (c) the metadata store refuses a write at stage 2 / stage 3 of store.Set, or a Commit's batch
+    rc, out = C.go_test("./pkg/inline/db", "TestVerifC10Meta", {"VERIF_OUT": ctx.rd}, timeout=1200)
+    mp = os.path.join(ctx.rd, "c10meta.json")
+    if rc != 0 or not os.path.exists(mp):
+        rp = C.write_replay("C10", "meta-run-failed", {"property": "C10", "kind": "impl-run-failed", "output": out[-6000:]})
+        violations.append(Violation("c10-meta-run-failed", "metadata fault injection failed to run: " + out.strip().split("\n")[-1][:160], rp))
+    else:
+        md = json.load(open(mp))
+        total += md.get("cases", 0)
+        dist["metadata-fault cases"] = md.get("cases", 0)
+        if md.get("bad"):
+            rp = C.write_replay("C10", "meta-fault", {"property": "C10", "kind": "metadata-fault", "observed": md["bad"][:12],
+                                "replay_env": "VERIF_OUT=<dir> go test -tags verif -run TestVerifC10Meta ./pkg/inline/db"})
+            violations.append(Violation("c10-meta-trace", "a write whose metadata write was refused left a trace: " + md["bad"][0][:400], rp))
     # (b) inline: reader errors and ENOSPC with continuation
     rc, out = C.go_test("./pkg/inline/db", "TestVerifC10Inline", {"VERIF_OUT": ctx.rd, "VERIF_TIER": ctx.tier}, timeout=3000)
     p = os.path.join(ctx.rd, "c10i")
